@@ -248,7 +248,7 @@ pub const OP_NAMES: &[&str] = &[
     "filter", "reduce", "all", "some", "none",
 ];
 
-pub const KEY_POOL: &[&str] = &["a", "b", "c", "", "0", "1", "-1", "a.b", "x\\y", "é", "current", "accumulator", "var", "xs", "secret", "k", "2", "日本", "a b", "+", "length", "xs.length", "__proto__", "constructor", "a.length"];
+pub const KEY_POOL: &[&str] = &["a", "b", "c", "", "0", "1", "-1", "a.b", "x\\y", "é", "current", "accumulator", "var", "xs", "secret", "k", "2", "日本", "a b", "+", "length", "xs.length", "__proto__", "constructor", "a.length", "../a", "$root", "$.a", "index", "this"];
 
 pub const SPECIAL_STRINGS: &[&str] = &[
     "", "0", "1", "a", "b", "ab", "abc", "false", "true", "null", " ", "1,2", ",", ",,", "[object Object]", "a.b", "a.0", "0.a", "-1", "x\\y", "x\\.y", "secret", "var", "1.0", "1e0", "10", "9", "2", "é",
